@@ -12,6 +12,7 @@ use std::io::{BufRead, Write};
 fn main() {
     std::panic::set_hook(Box::new(|_| {}));
     install_sink();
+    let tok_mode = std::env::args().any(|a| a == "tok");
     let stdin = std::io::stdin();
     let stdout = std::io::stdout();
     let mut out = std::io::BufWriter::new(stdout.lock());
@@ -25,6 +26,18 @@ fn main() {
         RED_THREADS.lock().unwrap_or_else(|e| e.into_inner()).clear();
         *g().panic_at.lock().unwrap_or_else(|e| e.into_inner()) = c.panic_at;
         let hdr = std::cell::RefCell::new(String::from("params=? kind=?"));
+        if tok_mode {
+            tok_reset();
+            let res = std::panic::catch_unwind(std::panic::AssertUnwindSafe(|| gen_k3::dispatch_tok(&c, &hdr)));
+            let res = match res {
+                Ok(r) => r,
+                Err(_) => "P".to_string(),
+            };
+            // everything the terminal returned has been dropped by now (results are rendered to strings)
+            writeln!(out, "id={} res={} {} {} {}", c.id, res, hdr.borrow(), tok_report(), observations()).unwrap();
+            out.flush().unwrap();
+            continue;
+        }
         let res = std::panic::catch_unwind(std::panic::AssertUnwindSafe(|| gen_k3::dispatch(&c, &hdr)));
         let res = match res {
             Ok(r) => r,
